@@ -627,6 +627,12 @@ impl BuiltInFunction {
                     .map(|a| a.as_number())
                     .collect::<AnyhowResult<Vec<f64>>>()?;
 
+                if nums.is_empty() {
+                    return Err(RuntimeError::from(
+                        "percentile requires at least one number"
+                    ));
+                }
+
                 nums.sort_by(|a, b| a.partial_cmp(b).unwrap());
                 let index = (p / 100.0 * (nums.len() - 1) as f64).round() as usize;
 
